@@ -1,0 +1,53 @@
+//go:build verif
+
+// Contracts for shardingBlobAccess (property C12, the part that uses the
+// selector). Comment-only file.
+//
+// selShard(s, h): the shard the selector picks for hash h (a function of
+// selector and hash: the same object always goes to the same shard);
+// selCount(s): the number of shards it distributes over.
+package sharding
+
+//@ ufunc selShard(ref, u64) int
+//@ ghost selCount(ref) int
+//@ iface ShardSelector.GetShard
+//@   modifies nothing
+//@   ensures result == selShard(self, hash) && 0 <= result && result < selCount(self)
+
+//@ extern (encoding/binary.bigEndian).Uint64
+//@   modifies nothing
+//@ pure sbaWF(ba) = ba.shardSelector != nil && selCount(ba.shardSelector) == len(ba.backends) && len(ba.backends) >= 1
+//@     && (forall k :: 0 <= k && k < len(ba.backends) ==> ba.backends[k].Backend != nil)
+
+// hashOf(digest): the 64 bits of the object's hash the selector is fed.
+//@ ufunc hashOf(str) u64
+//@ func (*shardingBlobAccess).getBackendIndexByDigest
+//@   trusted
+//@   requires sbaWF(ba)
+//@   modifies nothing
+//@   ensures result == selShard(ba.shardSelector, hashOf(blobDigest.value)) && 0 <= result && result < len(ba.backends)
+
+// Reads and writes of an object go to the one backend its hash selects.
+//@ func (*shardingBlobAccess).Get
+//@   requires sbaWF(ba)
+//@   ensures result != nil
+//@   ensures [one-shard-per-object] baGets(ba.backends[selShard(ba.shardSelector, hashOf(digest.value))].Backend)
+//@         == old(baGets(ba.backends[selShard(ba.shardSelector, hashOf(digest.value))].Backend)) + 1
+//@ func (*shardingBlobAccess).Put
+//@   requires sbaWF(ba) && b != nil
+//@   ensures [same-shard-as-reads] baDigest(ba.backends[selShard(ba.shardSelector, hashOf(digest.value))].Backend) == digest.value
+//@   ensures [failure-surfaced] (result == nil) <==> (baPutErr(ba.backends[selShard(ba.shardSelector, hashOf(digest.value))].Backend) == nil)
+
+// FindMissing: the per-shard answers are written through pointers into
+// missingPerBackend, so that slice must never be reallocated while the
+// goroutines run: it is created with room for one entry per backend and grows
+// by at most one entry per backend.
+//@ func (*shardingBlobAccess).FindMissing
+//@   opt contents SetBuilder
+//@   requires sbaWF(ba)
+//@   loop 0 invariant -1 <= rangeindex && rangeindex < len(ba.backends) && len(digestsPerBackend) == rangeindex + 1
+//@         && cap(digestsPerBackend) >= len(ba.backends) && unchanged(len(ba.backends)) && unchanged(ba.shardSelector) && sbaWF(ba)
+//@   loop 1 invariant -1 <= rangeindex && len(digestsPerBackend) == len(ba.backends) && unchanged(len(ba.backends)) && unchanged(ba.shardSelector) && sbaWF(ba)
+//@   loop 2 invariant -1 <= rangeindex && rangeindex < len(digestsPerBackend) && len(digestsPerBackend) == len(ba.backends)
+//@         && unchanged(len(ba.backends))
+//@   loop 2 invariant [answers-are-never-moved] len(missingPerBackend) <= rangeindex + 1 && cap(missingPerBackend) >= len(ba.backends)
